@@ -75,16 +75,22 @@ func genC09Call(t *rapid.T, nkeys int, inBatch bool) c09Call {
 		return c09Call{K: "stat"}
 	case x < 89:
 		return c09Call{K: "sync"}
-	case x < 97:
+	case x < 96:
 		c := c09Call{K: "batch"}
 		for i, n := 0, 1+kvh.U(t, 4, "nsub"); i < n; i++ {
 			c.Sub = append(c.Sub, genC09Call(t, nkeys, true))
 		}
 		return c
+	case x < 98:
+		// not in the statement's list, but C20 promises that the source stays usable while backups are repeated
+		// during continued use: a Backup that races with the calls of other goroutines is reported here
+		return c09Call{K: "backup"}
 	default:
 		return c09Call{K: "merge"}
 	}
 }
+
+var c09BackupSeq atomic.Int64
 
 func c09Exec(db *kv.DB, c c09Call) error {
 	bad := func(op string, err error, allowed ...error) error {
@@ -137,6 +143,11 @@ func c09Exec(db *kv.DB, c c09Call) error {
 		return bad("Sync", db.Sync())
 	case "merge":
 		return bad("Merge", db.Merge(), kv.ErrMergeIsProgress, kv.ErrMergeRatioUnreached, kv.ErrMergeFileIDConflict)
+	case "backup":
+		dir := filepath.Join(kvh.GetEnv().Scratch, fmt.Sprintf("c09-backup-%d-%d", os.Getpid(), c09BackupSeq.Add(1)))
+		err := db.Backup(dir)
+		_ = os.RemoveAll(dir)
+		return bad("Backup", err)
 	case "batch":
 		b := db.NewBatch(kv.BatchOptions{Sync: len(c.Sub)%2 == 0})
 		var first error
@@ -357,7 +368,7 @@ func runC09(c *c09Case) (feat map[string]bool, fail *kvh.Fail) {
 func TestC09(t *testing.T) {
 	st := kvh.StatsFor("C09")
 	st.SetRule(c09Rule,
-		"a race detector only sees races on the schedules that are executed; Close, Backup and the background merge ticker are not in the statement's call list and are not mixed in (a Backup may be the last call of the single-threaded prehistory)",
+		"a race detector only sees races on the schedules that are executed; Close and the background merge ticker are not in the statement's call list and are not mixed in; Backup is not in that list either but is mixed in at 2 % of the calls (and may end the single-threaded prehistory), because C20 promises a usable source while backups are repeated during continued use",
 		"documented error sets: nil everywhere, plus ErrKeyNotFound for Get/Batch.Get and ErrMergeIsProgress / ErrMergeRatioUnreached / ErrMergeFileIDConflict for Merge; anything else (ErrIndexUpdateFailed, ErrDataFileNotFound, ErrNoEnoughSpaceForMerge, EOF/CRC errors) is an internal-inconsistency error",
 		"a goroutine holding an uncommitted batch makes no other database call (API precondition)",
 		"deadlock is decided from goroutine wait states, not from elapsed time: every client goroutine parked in a sync lock / channel wait, none runnable, identical at two inspections 10 s apart; a run that merely takes long (300 s limit for programs that take milliseconds) is inconclusive")
